@@ -1,3 +1,4 @@
+import NgVerif.Proofs.Enc
 import NgVerif.Proofs.Coords
 import NgVerif.Proofs.CsegOwn
 /-
@@ -63,5 +64,18 @@ theorem read_returns_last_write (valid : Key → Bool) (enc : List Nat → Bytes
   cases lastWrite valid k h with
   | some a => simp [hcodec]
   | none => rfl
+
+/-- per-scale encoder selection (`get_encoder`): a codec is returned EXACTLY for the well-formed requests —
+    data type one of the five Neuroglancer types, a positive channel count, and `raw`, or
+    `compressed_segmentation` with a block size and a 32/64-bit unsigned type, or `jpeg` with uint8 and one or
+    three channels (tables regenerated from the source) — and it is the codec the scale names; every other
+    request (missing keys included) ends in `InvalidInfoError`, for every request -/
+theorem encoder_selection_follows_info (r : Enc.Req) (c : Enc.Codec) :
+    Enc.select r = some c ↔ Enc.Served r c :=
+  ⟨Enc.select_sound r c, Enc.select_complete r c⟩
+
+example : Enc.select ⟨some "uint64", some 2, some "compressed_segmentation", true⟩ = some .cseg ∧
+    Enc.select ⟨some "uint16", some 1, some "compressed_segmentation", true⟩ = none ∧
+    Enc.select ⟨some "uint8", some 2, some "jpeg", false⟩ = none := by decide
 
 end NgVerif.Props.C03
